@@ -30,17 +30,20 @@ def _and(rs):
     return rs[0] if len(rs) == 1 else z3.Intersect(*rs)
 
 
+def normalised_re(ws, sigma=None):
+    """z3 regex of strings already in whitespace-normalised form for facet ws"""
+    sigma = sigma or rx.SIGMA
+    if ws == 'preserve':
+        return rx.sigma_star(sigma)
+    if ws == 'replace':
+        return z3.Star(rx.cls([c for c in sigma if c not in '\t\n\r']))
+    ns = z3.Plus(rx.cls([c for c in sigma if c not in ' \t\n\r']))
+    return z3.Option(z3.Concat(ns, z3.Star(z3.Concat(z3.Re(z3.StringVal(' ')), ns))))
+
+
 def normalised(s, ws, sigma=None):
     """z3: string s is already in whitespace-normalised form for facet ws"""
-    sig = rx.sigma_star(sigma)
-    if ws == 'preserve':
-        return z3.BoolVal(True)
-    no_tn = z3.And(z3.Not(z3.Contains(s, z3.StringVal('\t'))), z3.Not(z3.Contains(s, z3.StringVal('\n'))),
-                   z3.Not(z3.Contains(s, z3.StringVal('\r'))))
-    if ws == 'replace':
-        return no_tn
-    return z3.And(no_tn, z3.Not(z3.PrefixOf(z3.StringVal(' '), s)), z3.Not(z3.SuffixOf(z3.StringVal(' '), s)),
-                  z3.Not(z3.Contains(s, z3.StringVal('  '))))
+    return z3.InRe(s, normalised_re(ws, sigma))
 
 
 class Lex:
@@ -97,9 +100,14 @@ class Lex:
         return [(k, Fraction(v)) for k, v in self.T.get('bounds', []) if k.startswith(('min', 'max')) and 'Length' not in k]
 
     def int_ok(self, n, upper=True):
-        """z3 Bool: python int n (not bool) rendered by str() is valid for T"""
+        """z3 Bool: python int n (not bool) rendered by str() is valid for T; None = not decided"""
         if self.kind == 'union':
-            return z3.Or([m.int_ok(n, upper) for m in self.members])
+            parts = [m.int_ok(n, upper) for m in self.members]
+            if any(p is None for p in parts):
+                if upper:
+                    return None
+                parts = [p for p in parts if p is not None]
+            return z3.Or(parts) if parts else z3.BoolVal(False)
         if self.kind in ('decimal', 'integer'):
             cs = []
             for k, v in self._bounds():
@@ -107,36 +115,55 @@ class Lex:
                 cs.append({'minInclusive': n * den >= num, 'minExclusive': n * den > num,
                            'maxInclusive': n * den <= num, 'maxExclusive': n * den < num}[k])
             return z3.And(cs) if cs else z3.BoolVal(True)
-        if self.kind == 'string' and not self.T.get('enums') and not self.T.get('patterns') and not self.T.get('bounds'):
-            return z3.BoolVal(True) if upper else z3.BoolVal(False)
+        if self.kind == 'string' and not self.T.get('patterns') and not self.T.get('bounds'):
+            if self.T.get('enums') is None:
+                return z3.BoolVal(True) if upper else z3.BoolVal(False)
+            lits = [int(x) for x in self.T['enums'] if re.fullmatch(r'0|-?[1-9][0-9]*', x)]
+            if not upper:
+                return z3.BoolVal(False)
+            return z3.Or([n == x for x in lits]) if lits else z3.BoolVal(False)
         return None       # needs str.from_int: not encoded (callers count it as not decided)
 
     # ------------------------------------------------------------ floats
+    def fp_classes(self, x):
+        """partition of the floats whose repr is NOT valid decimal text for T: list of (label, formula)"""
+        ax = z3.fpAbs(x)
+        fin = z3.And(z3.Not(z3.fpIsNaN(x)), z3.Not(z3.fpIsInf(x)))
+        expfree = z3.Or(z3.fpIsZero(x), z3.And(z3.fpGEQ(ax, z3.FPVal(1e-4, F64)), z3.fpLT(ax, z3.FPVal(1e16, F64))))
+        out = [('nan', z3.fpIsNaN(x)), ('inf', z3.And(z3.fpIsInf(x), z3.Not(z3.fpIsNegative(x)))),
+               ('-inf', z3.And(z3.fpIsInf(x), z3.fpIsNegative(x))),
+               ('small-exponent', z3.And(fin, z3.Not(z3.fpIsZero(x)), z3.fpLT(ax, z3.FPVal(1e-4, F64)))),
+               ('large-exponent', z3.And(fin, z3.fpGEQ(ax, z3.FPVal(1e16, F64))))]
+        for k, v in self._bounds():
+            if v.denominator != 1 or abs(v.numerator) >= 2 ** 53:
+                xr = z3.fpToReal(x)
+                q = z3.RealVal(str(v))
+                inb = {'minInclusive': xr >= q, 'minExclusive': xr > q, 'maxInclusive': xr <= q, 'maxExclusive': xr < q}[k]
+            else:
+                b = z3.FPVal(float(v), F64)
+                inb = {'minInclusive': z3.fpGEQ(x, b), 'minExclusive': z3.fpGT(x, b),
+                       'maxInclusive': z3.fpLEQ(x, b), 'maxExclusive': z3.fpLT(x, b)}[k]
+            out.append(('violates-%s-%s' % (k, v), z3.And(fin, expfree, z3.Not(inb))))
+        return out
+
     def fp_ok(self, x, upper=True):
         """z3 Bool: python float x rendered by repr() is valid for T (CPython repr lemma:
         exponent-free iff x == 0 or 1e-4 <= |x| < 1e16; non-finite -> nan/inf)"""
         if self.kind == 'union':
-            return z3.Or([m.fp_ok(x, upper) for m in self.members])
+            parts = [m.fp_ok(x, upper) for m in self.members]
+            if any(p is None for p in parts):
+                if upper:
+                    return None
+                parts = [p for p in parts if p is not None]
+            return z3.Or(parts) if parts else z3.BoolVal(False)
         if self.kind == 'decimal':
-            ax = z3.fpAbs(x)
-            cs = [z3.Not(z3.fpIsNaN(x)), z3.Not(z3.fpIsInf(x)),
-                  z3.Or(z3.fpIsZero(x), z3.And(z3.fpGEQ(ax, z3.FPVal(1e-4, F64)), z3.fpLT(ax, z3.FPVal(1e16, F64))))]
-            for k, v in self._bounds():
-                if v.denominator != 1 or abs(v.numerator) >= 2 ** 53:
-                    # decimal bound not exactly representable: compare in reals
-                    xr = z3.fpToReal(x)
-                    q = z3.RealVal(str(v))
-                    cs.append({'minInclusive': xr >= q, 'minExclusive': xr > q, 'maxInclusive': xr <= q,
-                               'maxExclusive': xr < q}[k])
-                else:
-                    b = z3.FPVal(float(v), F64)
-                    cs.append({'minInclusive': z3.fpGEQ(x, b), 'minExclusive': z3.fpGT(x, b),
-                               'maxInclusive': z3.fpLEQ(x, b), 'maxExclusive': z3.fpLT(x, b)}[k])
-            return z3.And(cs)
+            return z3.Not(z3.Or([f for _, f in self.fp_classes(x)]))
         if self.kind == 'integer':
             return z3.BoolVal(False)       # repr(float) always has '.', 'e', 'inf' or 'nan'
-        if self.kind == 'string' and not self.T.get('enums') and not self.T.get('patterns') and not self.T.get('bounds'):
-            return z3.BoolVal(True) if upper else z3.BoolVal(False)
+        if self.kind == 'string' and not self.T.get('patterns') and not self.T.get('bounds'):
+            if self.T.get('enums') is None:
+                return z3.BoolVal(True) if upper else z3.BoolVal(False)
+            return z3.BoolVal(False)       # no enumeration literal of the schema is a float repr
         return None
 
     def bool_ok(self):
@@ -198,22 +225,30 @@ class Lex:
                 if str(s.check()) != 'sat':
                     return None
             return s.model().eval(n, model_completion=True).as_long()
-        v = z3.String('v')
-        s.add(self.str_ok(v, upper=False), z3.Length(v) <= 12, z3.Length(v) >= (1 if self.kind != 'string' or self.T.get('patterns') or self.T.get('enums') else 0))
-        s.add(normalised(v, self.ws, self.sigma))
-        asc = rx.sigma_star([c for c in self.sigma if ord(c) < 127 and c not in '<>&"\''])
-        s.add(z3.InRe(v, asc))
-        for a in avoid:
-            if isinstance(a, str):
-                s.add(v != z3.StringVal(a))
         if self.T.get('enums'):
             for lit in self.T['enums']:
                 if lit not in avoid:
                     return lit
-        s.push()
-        s.add(z3.Length(v) >= 1)
-        if str(s.check()) != 'sat':
+        v = z3.String('v')
+        s.set('timeout', 5000)
+        nonempty = self.kind != 'string' or bool(self.T.get('patterns')) or bool(self.T.get('enums'))
+        asc = rx.sigma_star([c for c in self.sigma if ord(c) < 127 and c not in '<>&"\''])
+        s.add(self.str_ok(v, upper=False), z3.InRe(v, z3.Intersect(normalised_re(self.ws, self.sigma), asc)))
+        for a in avoid:
+            if isinstance(a, str):
+                s.add(v != z3.StringVal(a))
+        plain = z3.Plus(rx.cls([c for c in self.sigma if c.isascii() and (c.isalnum() or c in '#.-')]))
+        for extra in ([z3.InRe(v, plain), z3.Length(v) <= 12], [z3.Length(v) >= 1, z3.Length(v) <= 12], [z3.Length(v) >= 1],
+                      [] if not nonempty else None):
+            if extra is None:
+                continue
+            s.push()
+            s.add(*extra)
+            r = str(s.check())
+            if r == 'sat':
+                return unescape(s.model().eval(v, model_completion=True).as_string())
             s.pop()
-            if str(s.check()) != 'sat':
-                return None
-        return unescape(s.model().eval(v, model_completion=True).as_string())
+        for cand in ('2000-01-01', 'a', 'en', '1', '#000000', 'A1', 'x', ''):
+            if cand not in avoid and self.valid_text(cand, upper=False) and self.collapse(cand) == cand:
+                return cand
+        return None
